@@ -73,6 +73,13 @@ class Bench:
                 return rng.choice(others) if others else entry
         return entry
 
+    def spellings(self, entry):
+        """every member (text, version) of the pool class of `entry`"""
+        for cl in self.pool.classes:
+            if any(v is entry[1] for _, v in cl):
+                return list(cl)
+        return [entry]
+
     def con(self, cm, ver):
         if cm == "star":
             return VersionConstraint(comparator="*", version_class=self.cls)
